@@ -21,7 +21,7 @@ func init() {
 // its twin S' in which the focus node is the same node without Catch, on the same input.
 
 func C05_Jobs() []string {
-	var out []string
+	out := []string{"multi-issue/parse", "multi-issue/validate", "ptr-elem/parse"}
 	for _, j := range shapeJobs() {
 		_, tm, variant, d := split3(j)
 		if tm == "T5" || tm == "T6" || tm == "T7" {
@@ -57,6 +57,9 @@ func (sh *shape) focus() ([]*IntNode, []string, Node) {
 	}
 	if in, ok := sh.top.Kids[0].(*StructNode); ok {
 		return []*IntNode{in.Kids[0].(*IntNode)}, []string{sh.top.Keys[0] + "." + in.Keys[0]}, nil
+	}
+	if pn, ok := sh.top.Kids[0].(*PtrNode); ok {
+		return []*IntNode{pn.El}, []string{sh.top.Keys[0]}, nil
 	}
 	return []*IntNode{sh.top.Kids[0].(*IntNode)}, []string{sh.top.Keys[0]}, nil
 }
@@ -131,6 +134,9 @@ func eqPtrInt(a, b *int) bool {
 }
 
 // destinations equal on every field except the named one ("" = none)
+// the issue list is the pointer's own not_nil report (not a failure of the pointed-to node)
+func isAbsentNotNil(l z.ZogIssueList) bool { return len(l) == 1 && l[0].Code == "not_nil" }
+
 func destEqualExcept(a, b *Dest, skip string) bool {
 	ok := true
 	if skip != "i" {
@@ -140,7 +146,9 @@ func destEqualExcept(a, b *Dest, skip string) bool {
 	ok = v.And(ok, v.And(a.S == b.S, a.T == b.T))
 	ok = v.And(ok, a.B == b.B)
 	ok = v.And(ok, eqIntSlices(a.LI, b.LI))
-	ok = v.And(ok, eqPtrInt(a.PI, b.PI))
+	if skip != "pI" {
+		ok = v.And(ok, eqPtrInt(a.PI, b.PI))
+	}
 	if skip != "n.x" {
 		ok = v.And(ok, a.N.X == b.N.X)
 	}
@@ -158,8 +166,84 @@ func destEqualExcept(a, b *Dest, skip string) bool {
 	return ok
 }
 
+func c05Extra(kind, mode string) {
+	x := v.Int("x")
+	g := v.Int("g")
+	switch kind {
+	case "multi-issue":
+		// a catching node swallows every issue its tests report, however many per call
+		many := z.Test{Func: func(val any, c z.Ctx) {
+			if val.(int) > g { // a Test added to a primitive schema receives the value itself
+				return
+			}
+			c.AddIssue(c.Issue().SetCode("first"))
+			c.AddIssue(c.Issue().SetCode("second"))
+			c.AddIssue(c.Issue().SetCode("third"))
+		}}
+		mk := func(catch bool) *z.StructSchema {
+			s := z.Int()
+			s = s.Test(many)
+			if catch {
+				s = s.Catch(7)
+			}
+			return z.Struct(z.Schema{"a": s, "l": z.Slice(s)})
+		}
+		var d1, d2 struct {
+			A int
+			L []int
+		}
+		v.Assume(x != 0)
+		var e1, e2 z.ZogIssueMap
+		if mode == "validate" {
+			d1.A, d1.L, d2.A, d2.L = x, []int{x, x}, x, []int{x, x}
+			e1, e2 = mk(true).Validate(&d1), mk(false).Validate(&d2)
+		} else {
+			in := map[string]any{"a": x, "l": []any{x, x}}
+			e1, e2 = mk(true).Parse(in, &d1), mk(false).Parse(in, &d2)
+		}
+		v.Assert(e1 == nil, "C05:catching-node-reported-an-issue")
+		if e2 != nil {
+			v.Cover("caught")
+			v.Assert(len(e2["a"]) == 3 && len(e2["l[1]"]) == 3, "C05:twin-lost-issues")
+			v.Assert(d1.A == 7 && len(d1.L) == 2 && d1.L[0] == 7 && d1.L[1] == 7, "C05:failure-did-not-yield-catch-value")
+		} else {
+			v.Cover("not-caught")
+			v.Assert(d1.A == x && d1.L[1] == x, "C05:catch-value-used-without-failure")
+		}
+	case "ptr-elem":
+		// catching primitive directly behind Ptr, as slice element and at top level
+		var p1, p2 *int
+		e1 := z.Ptr(z.Int().GT(g).Catch(7)).Parse(x, &p1)
+		e2 := z.Ptr(z.Int().GT(g)).Parse(x, &p2)
+		v.Assert(e1 == nil && p1 != nil, "C05:failure-did-not-yield-catch-value")
+		if e2 != nil {
+			v.Cover("caught")
+			v.Assert(*p1 == 7, "C05:failure-did-not-yield-catch-value")
+		} else {
+			v.Cover("not-caught")
+			v.Assert(*p1 == x, "C05:catch-value-used-without-failure")
+		}
+		var l1 []*int
+		e3 := z.Slice(z.Ptr(z.Int().GT(g).Catch(7))).Parse([]any{x, "zz"}, &l1)
+		v.Assert(e3 == nil && len(l1) == 2 && l1[0] != nil && l1[1] != nil && *l1[1] == 7, "C05:failure-did-not-yield-catch-value")
+	}
+}
+
 func C05_Run(job string) {
+	if a, b, _, _ := split3(job); a == "multi-issue" || a == "ptr-elem" {
+		c05Extra(a, b)
+		return
+	}
 	sh := buildShape(job)
+	if sh.top != nil {
+		// struct-level tests that read the catching field legitimately see the catch value: not part of
+		// the twin comparison (they stay in C01/C02/C09)
+		for _, kid := range sh.top.Kids {
+			if in, ok := kid.(*StructNode); ok {
+				in.TCode = ""
+			}
+		}
+	}
 	ns, paths, other := sh.focus()
 	setCatch(sh, true)
 	o1 := runReal(sh)
@@ -216,14 +300,38 @@ func C05_Run(job string) {
 		v.Assert(len(o1.dSl) == len(o2.dSl), "C05:catch-changed-other-values")
 	default:
 		p := paths[0]
-		v.Assert(len(o1.m[p]) == 0, "C05:catching-node-reported-an-issue")
+		// issues the focus node itself contributes at p (a pointer's own not_nil is not one)
+		own := func(m z.ZogIssueMap) int {
+			n := 0
+			for _, e := range m[p] {
+				if !(p == "pI" && e.Code == "not_nil") {
+					n++
+				}
+			}
+			return n
+		}
+		v.Assert(own(o1.m) == 0, "C05:catching-node-reported-an-issue")
+		v.Assert(len(o1.m[p])-own(o1.m) == len(o2.m[p])-own(o2.m), "C05:catch-changed-issues-of-other-nodes")
 		var d1, d2 int
-		if p == "i" {
+		switch p {
+		case "i":
 			d1, d2 = o1.dest.I, o2.dest.I
-		} else {
+		case "pI":
+			// the pointer itself must agree (nil or not); compare the pointees
+			v.Assert((o1.dest.PI == nil) == (o2.dest.PI == nil) || own(o2.m) > 0, "C05:catch-changed-other-values")
+			if o1.dest.PI != nil {
+				d1 = *o1.dest.PI
+			}
+			if o2.dest.PI != nil {
+				d2 = *o2.dest.PI
+			}
+			if own(o2.m) > 0 {
+				v.Assert(o1.dest.PI != nil, "C05:failure-did-not-yield-catch-value")
+			}
+		default:
 			d1, d2 = o1.dest.N.X, o2.dest.N.X
 		}
-		if len(o2.m[p]) > 0 {
+		if own(o2.m) > 0 {
 			v.Cover("caught")
 			v.Assert(d1 == ns[0].Catch, "C05:failure-did-not-yield-catch-value")
 		} else {
@@ -252,7 +360,7 @@ func C09_Jobs() []string {
 			out = append(out, j)
 		}
 	}
-	out = append(out, "params-order", "input-key-order")
+	out = append(out, "params-order", "input-key-order", "input-case-variants")
 	return out
 }
 func C09_Covers() []string { return []string{"both-clean", "both-issues"} }
@@ -295,6 +403,22 @@ func C09_Run(job string) {
 		v.Assert(a == b, "C09:issues-depend-on-order")
 		v.Assert(a == "between|number||must be between 18 and 65;", "C09:issues-depend-on-order")
 		return
+	case "input-case-variants":
+		// input keys that differ from the schema key only by case are different keys: whatever the
+		// library does with them, it does the same on every run
+		x, y := v.Int("x"), v.Int("y")
+		run := func() (z.ZogIssueMap, int) {
+			var d struct{ Name int }
+			errs := z.Struct(z.Schema{"name": z.Int().GT(10).Required()}).Parse(map[string]any{"Name": x, "NAME": y, "nAme": 3}, &d)
+			return errs, d.Name
+		}
+		e1, d1 := run()
+		e2, d2 := run()
+		v.Cover("both-issues")
+		v.Cover("both-clean")
+		v.Assert(sameMapsExcept(e1, e2, nil) && (e1 == nil) == (e2 == nil), "C09:issues-depend-on-order")
+		v.Assert(d1 == d2, "C09:destination-depends-on-order")
+		return
 	case "input-key-order":
 		// the input map's keys are visited by the schema's order, never by the input's; a typed
 		// input map goes through a provider copy (maps.Copy in Merge, params) — run twice
@@ -335,7 +459,7 @@ func C09_Run(job string) {
 // C13 — Parse and Validate agree on fully populated values.
 
 func C13_Jobs() []string {
-	out := []string{"post/prim", "post/struct", "post/slice"}
+	out := []string{"post/prim", "post/struct", "post/slice", "post/catch", "post/slice-tests"}
 	for _, j := range shapeJobs() {
 		m, _, _, _ := split3(j)
 		if m == "validate" {
@@ -454,6 +578,32 @@ func c13Post(kind string) {
 		v.Assert(l1 == l2, "C13:callbacks-differ-between-modes")
 		v.Assert(sameFullMaps(e1, e2), "C13:issues-differ-between-modes")
 		v.Assert(d1.X == d2.X && d1.Y == d2.Y, "C13:values-differ-between-modes")
+	case "catch":
+		// a caught value is transformed (or not) alike in both modes
+		g := v.Int("g")
+		build := func(log *string) *z.NumberSchema[int] {
+			return z.Int().GT(g).Catch(21).PostTransform(mk(log, 0)).PostTransform(mk(log, 1))
+		}
+		d1, d2 := x, 0
+		e1 := build(&l1).Validate(&d1)
+		e2 := build(&l2).Parse(x, &d2)
+		v.Assert(l1 == l2, "C13:callbacks-differ-between-modes")
+		v.Assert(fullCodes(e1) == fullCodes(e2), "C13:issues-differ-between-modes")
+		v.Assert(d1 == d2, "C13:values-differ-between-modes")
+	case "slice-tests":
+		// whole-slice tests see the same items in both modes, item transforms included
+		k := v.Int("k")
+		needle := v.Int("needle")
+		build := func(log *string) *z.SliceSchema {
+			return z.Slice(z.Int().PostTransform(mk(log, 0))).Max(k).Contains(needle)
+		}
+		d1 := []int{x, x + 1}
+		var d2 []int
+		e1 := build(&l1).Validate(&d1)
+		e2 := build(&l2).Parse([]any{x, x + 1}, &d2)
+		v.Assert(l1 == l2, "C13:callbacks-differ-between-modes")
+		v.Assert(sameFullMaps(e1, e2), "C13:issues-differ-between-modes")
+		v.Assert(eqIntSlices(d1, d2), "C13:values-differ-between-modes")
 	case "slice":
 		build := func(log *string) *z.SliceSchema {
 			return z.Slice(z.Int().PostTransform(mk(log, 0))).PostTransform(mk(log, 1)).PostTransform(mk(log, 2))
